@@ -53,7 +53,15 @@ MANIFEST = dict(
          "any private helper of the class: rows must be the rows parameter, the column request the merge of fields= and columns= (or both "
          "forwarded).  (6a) split_fields is checked on whatever function the name resolves to in sfile, recfile.Util and numpy_util "
          "(an import of another module's copy is followed).  (7i) a counted loop whose first round differs from the later ones by a "
-         "test of the loop counter alone is accepted when the reads of all rounds form one arithmetic progression.",
+         "test of the loop counter alone is accepted when the reads of all rounds form one arithmetic progression.  (1g) what a slice "
+         "normaliser returns depends, by data or control dependence (reaching definitions, over-approximated), on the start, the stop and "
+         "the step of the slice on every return path, and each component is handed to it at the call.  (6f) the field selector of every "
+         "split_fields call in the reader modules is absent / None / the result's own dtype names, never a value that carries the order "
+         "of the caller's fields= / columns= request (followed through locals by reaching definitions).  (7k) every one-integer method "
+         "that the binary readers reach and that positions or reads the stream is walked per path with the cursor displacement as a "
+         "polynomial (relative seeks, getc, fread, counted loops, ftell + SEEK_SET); a test of the bytes read is feasible both ways except "
+         "int-held getc results against EOF, feof / ferror and seek / read status; every normal path for a positive argument p must "
+         "displace by p bytes or p rows, independent of the bytes skipped.",
     note="Not decided: element-wise equality with in-memory indexing for all table sizes (numpy indexing, libc reads and the per-column "
          "text scanner are trusted; the evaluation is exhaustive only over small model tables). Assumes positive slice steps (property "
          "quantifier). Trusted: slice.indices, numpy.unique, CPython ast, clang AST, SWIG naming.",
@@ -1651,6 +1659,19 @@ def _r02_1g_components(chk, pa, view, n, c, fi):
             r = bad[0]
             under = [t + ("" if lab == "T" else " is false") for t, lab in rules.controlling_tests(rd.view, r)]
             what = ("`%s`" % norm(r.ast)) if r.kind == "return" else "the end of the function (returns None)"
+            # the argument needs a table on which the two slices select different rows AND this return is reached: that is certain
+            # when the tests on the way read nothing but the slice (its components, constants); a test of anything else (the row
+            # count, the file type ...) may confine the return to tables where it is right -- no verdict then
+            foreign = set()
+            for b in rd.controlling(r):
+                names, _ = rd._reads(b)
+                foreign |= {v for v in names if v not in carried and v not in ("isinstance", "int", "slice", "bool", "abs")}
+            if foreign:
+                chk.ob("R02.1g", "%s::result-depends-on-slice-%s" % (fi.qualname, comp), None, fi.where(r.ast),
+                       "%s does not depend on the %s of the slice, and is reached under tests that read %s besides the slice: whether "
+                       "slices that differ in their %s can reach it on a table where they select different rows is not decided"
+                       % (what, comp, sorted(foreign), comp))
+                continue
             chk.ob("R02.1g", "%s::result-depends-on-slice-%s" % (fi.qualname, comp), False, fi.where(r.ast),
                    "what the slice normaliser answers depends on the %s of the slice on every path: %s%s neither computes its value from "
                    "the %s nor is reached under a test of it, so slices that differ only in their %s (and select different rows) get the "
@@ -3831,7 +3852,12 @@ def r02_7(chk, cfun, S):
     sem = _r02_7j_semantic(chk, cfun)
     if not done:
         _r02_7j_structural(chk, cfun, sem)
-    _r02_7k_binary_movers(chk, cfun)
+    try:
+        _r02_7k_binary_movers(chk, cfun)
+    except AnalysisError:
+        raise
+    except Exception as e:              # a defect of the analysis must never become a verdict
+        chk.ob("R02.7k", "binary-skip-helpers", None, CPP, "analysis failed: %s: %s" % (type(e).__name__, e))
 
 
 def _r02_7i_absolute_seek(fn):
